@@ -8,7 +8,11 @@ use syn::*;
 
 pub const LEAVES: [&str; 9] = ["u8", "u16", "u32", "u64", "usize", "i32", "i64", "bool", "f64"];
 
-fn leaf(l: i64) -> &'static str { LEAVES[(l as usize) % LEAVES.len()] }
+thread_local! { static GENERIC: std::cell::Cell<bool> = std::cell::Cell::new(false); }
+/// header field 3 of a case line: the trait has a type parameter `T: Copy + 'static`, written wherever the grammar says leaf 2 (u32)
+pub fn set_generic(g: bool) { GENERIC.with(|c| c.set(g)); }
+fn generic() -> bool { GENERIC.with(|c| c.get()) }
+fn leaf(l: i64) -> &'static str { let i = (l as usize) % LEAVES.len(); if i == 2 && generic() { "T" } else { LEAVES[i] } }
 
 pub fn arg_ty(shape: i64, l: i64) -> String {
     let t = leaf(l);
@@ -62,7 +66,7 @@ pub fn render_trait(name: &str, trait_int: i64, rows: &[Vec<i64>]) -> String {
     let mut s = String::new();
     s.push_str("#[cglue_trait]\n");
     if trait_int != 0 { s.push_str("#[int_result]\n"); }
-    s.push_str(&format!("pub trait {} {{\n", name));
+    s.push_str(&format!("pub trait {}{} {{\n", name, if generic() { "<T: Copy + 'static>" } else { "" }));
     for (k, r) in rows.iter().enumerate() {
         // intmode: low 2 bits = int_result attribute; +4 = the method has a default body; +8 = explicit lifetime generics <'a>
         // receiver field: low 2 bits = receiver kind, +4 = #[vtbl_only] (needs a default body: the opaque object does not forward it)
@@ -101,7 +105,7 @@ fn norm_nolt(t: &impl ToTokens) -> String {
 /// C type code of a vtable parameter / return type
 fn ctype_code(t: &Type) -> (i64, i64) {
     let s = norm_nolt(t);
-    let lf = |x: &str| LEAVES.iter().position(|l| *l == x).map(|p| p as i64);
+    let lf = |x: &str| if generic() && x == "T" { Some(2) } else if generic() && x == "u32" { None } else { LEAVES.iter().position(|l| *l == x).map(|p| p as i64) };
     if let Some(p) = lf(&s) { return (1, p); }
     if s == "Pod" { return (8, 0); }
     if s == "i32" { return (1, 5); }
@@ -160,7 +164,7 @@ pub fn abstract_trait(name: &str, mrows: &[Vec<i64>], expansion: &str) -> std::r
         }
     }
     // ---- trait impl on the opaque object
-    let timpl = items.iter().find_map(|i| if let Item::Impl(im) = i { if im.trait_.as_ref().map(|t| { let n = norm(&t.1); n == name || n == format!("{}<>", name) }).unwrap_or(false) { Some(im) } else { None } } else { None }).ok_or("no trait impl")?;
+    let timpl = items.iter().find_map(|i| if let Item::Impl(im) = i { if im.trait_.as_ref().map(|t| { let n = norm(&t.1); n == name || n == format!("{}<>", name) || (generic() && (n == format!("{}<T>", name) || n == format!("{}<T,>", name))) }).unwrap_or(false) { Some(im) } else { None } } else { None }).ok_or("no trait impl")?;
     let mut rows = vec![];
     for k in 0..mrows.len() {
         let mname = mname(k, &mrows[k]);
@@ -201,7 +205,8 @@ pub fn abstract_trait(name: &str, mrows: &[Vec<i64>], expansion: &str) -> std::r
                     else if s == "letthis=unsafe{::cglue::trait_group::IntoInner::into_inner(this)};" { into_inner = 1; }
                     else if s == "letcglue_ctx=cglue_ctx.clone();" { ctx_clone = 1; }
                     else if s == "letret=ret.map(|ret|ret);" || s == "letret=ret.map(|ret|{ret});" { mapped = 1; }
-                    else if s.starts_with(&format!("letret=<CGlueC::ObjTypeas{}>::{}(", name, mname)) || s.starts_with(&format!("letret=<CGlueC::ObjTypeas{}<>>::{}(", name, mname)) {
+                    else if s.starts_with(&format!("letret=<CGlueC::ObjTypeas{}>::{}(", name, mname)) || s.starts_with(&format!("letret=<CGlueC::ObjTypeas{}<>>::{}(", name, mname))
+                        || (generic() && (s.starts_with(&format!("letret=<CGlueC::ObjTypeas{}<T>>::{}(", name, mname)) || s.starts_with(&format!("letret=<CGlueC::ObjTypeas{}<T,>>::{}(", name, mname)))) {
                         target_ok = 1;
                         if let Stmt::Local(l) = st { if let Some((_, e)) = &l.init { if let Expr::Call(c) = &**e {
                             let args: Vec<&Expr> = c.args.iter().collect();
@@ -303,6 +308,7 @@ pub fn run_ir() {
         let hdr: Vec<i64> = hd.split_whitespace().map(|t| t.parse().unwrap()).collect();
         let rows: Vec<Vec<i64>> = body.split(';').map(|r| r.split_whitespace().map(|t| t.parse().unwrap()).collect::<Vec<i64>>()).filter(|r| !r.is_empty()).collect();
         let trait_int = hdr.get(1).copied().unwrap_or(0);
+        set_generic(hdr.get(2).copied().unwrap_or(0) != 0);
         let src = render_trait("Tr", trait_int, &rows);
         let out = std::panic::catch_unwind(|| {
             let tr: ItemTrait = { let f = syn::parse_file(&src).expect("rendered trait parses"); match f.items.into_iter().next().unwrap() { Item::Trait(mut t) => { t.attrs.retain(|a| !a.path.is_ident("cglue_trait")); t } _ => unreachable!() } };
@@ -329,6 +335,7 @@ pub fn run_render() {
         let hdr: Vec<i64> = hd.split_whitespace().map(|t| t.parse().unwrap()).collect();
         let rows: Vec<Vec<i64>> = body.split(';').map(|r| r.split_whitespace().map(|t| t.parse().unwrap()).collect::<Vec<i64>>()).filter(|r| !r.is_empty()).collect();
         println!("// @@TRAIT {}", k);
+        set_generic(hdr.get(2).copied().unwrap_or(0) != 0);
         print!("{}", render_trait(&format!("T{}", k), hdr.get(1).copied().unwrap_or(0), &rows));
     }
 }
